@@ -296,7 +296,9 @@ def only_removals(a_files, b_files):
     def norm(text):
         # entries only: drop blank lines, comments and plain table headers such as the
         # `[audits]` that is written when a table becomes empty
-        return [l.strip() for l in text.splitlines()
+        # (the `# name (login)` remark after `user-id = N` is derived from the cached publisher
+        # records, so it disappears with them: not an entry of its own)
+        return [re.sub(r"^(user-id = \d+)\s*#.*$", r"\1", l.strip()) for l in text.splitlines()
                 if l.strip() and not l.strip().startswith("#") and not re.match(r"^\[[^\[]", l.strip())]
     for k in ("config", "audits", "imports"):
         al, bl = norm(a_files[k]), norm(b_files[k])
@@ -320,14 +322,14 @@ def oracle_c13(step):
             # (freshness promotion after the import); anything else is new
             if cls == "prune" and rep.get("files") and only_removals(step.s["files"], rep["files"]):
                 f = "F-C13-prune"
-            # the known finding for regenerate exemptions: the second run re-minimises the
-            # exemptions the first run wrote (narrows / merges / drops them, and then drops
-            # audits that became unnecessary); nothing else may change
+            # the known finding for regenerate exemptions: the second run re-minimises the exemptions
+            # the first run wrote (narrows / merges / drops / widens them); with other exemptions other
+            # certification paths are chosen, so audits and imports.lock entries may follow.  The finding is
+            # identified by its root: the EXEMPTIONS TABLE of the second run differs from the first's.  A second
+            # run that leaves the exemptions alone and still changes a file is something else.
             if cls == "regenerate-exemptions" and rep.get("files"):
-                a, b = dict(step.s["files"]), dict(rep["files"])
-                strip = lambda t: re.sub(r"\[\[exemptions\..*", "", t, flags=re.S)  # noqa
-                if only_removals({"config": strip(a["config"]), "audits": a["audits"], "imports": a["imports"]},
-                                 {"config": strip(b["config"]), "audits": b["audits"], "imports": b["imports"]}):
+                ex = lambda t: (re.search(r"\[\[exemptions\..*", t, flags=re.S) or [""])[0] if re.search(r"\[\[exemptions\.", t) else ""  # noqa
+                if ex(step.s["files"]["config"]) != ex(rep["files"]["config"]):
                     f = "F-C13-regenerate"
             out.append({"what": f"re-running `{cmd}` with unchanged inputs changed store files {rep['same_bytes']}", "finding": f})
     if cls == "check-locked" and step.pre is not None and step.post is not None:
